@@ -14,20 +14,26 @@ pub fn mk_callers(p: &Value) -> Arc<Mk> {
     let notifier = p["notifier"].as_u64().unwrap_or(0) as usize;
     let preload = p["preload"].as_bool().unwrap_or(false);
     let seed = p["seed"].as_u64().unwrap_or(0);
+    let static_mode = p["static"].as_bool().unwrap_or(false);
     Arc::new(move || {
         Box::new(move || {
             ahash::stub_set_seed(seed);
             let m = Mem::new(true);
             m.put("k", "txt", "v1");
             m.put("j", "txt", "w1");
-            let cache = Arc::new(AssetCache::with_source(m.clone()));
+            // leaked: `enhance_hot_reloading` needs a 'static cache (the reloader is torn down with the execution)
+            let cache: &'static AssetCache<Mem> = Box::leak(Box::new(AssetCache::with_source(m.clone())));
             ds::adopt(1, "reloader");
             if preload {
                 cache.load::<String>("k").unwrap();
             }
+            if static_mode {
+                // after this, hot_reload is documented to have no effect -- it must still return
+                cache.enhance_hot_reloading();
+            }
             let mut hs = vec![];
             for i in 0..n {
-                let c = cache.clone();
+                let c = cache;
                 hs.push(ds::spawn(&format!("caller{i}"), move || {
                     for call in 0..calls {
                         c.hot_reload();
@@ -36,7 +42,7 @@ pub fn mk_callers(p: &Value) -> Arc<Mk> {
                 }));
             }
             if loader {
-                let c = cache.clone();
+                let c = cache;
                 hs.push(ds::spawn("loader", move || {
                     let v = c.load::<String>("j").map(|h| h.read().clone()).unwrap_or_default();
                     let w = c.get_or_insert::<String>("z", "zz".into()).read().clone();
@@ -103,7 +109,7 @@ pub fn callers(args: &Args) -> SubResult {
     let mut res = SubResult::new("C08", "c08_callers");
     let thorough = args.thorough();
     let bound = if thorough { 3 } else { 2 };
-    res.bound = format!("callers 1..3 x calls 1..2 (+loader, +notifier, preloaded leaf); preemption bound {bound}; both Select::ready choices; reader admission both policies");
+    res.bound = format!("callers 1..3 x calls 1..2 (+loader, +notifier, preloaded leaf; also after enhance_hot_reloading); preemption bound {bound}; both Select::ready choices; reader admission both policies");
     res.rule = "every schedule within the preemption bound of each harness configuration; distinct = distinct (config, observation log, verdict)".into();
     let mut cases: Vec<(Value, bool, usize)> = vec![];
     for n in 1..=3usize {
@@ -119,6 +125,9 @@ pub fn callers(args: &Args) -> SubResult {
                     }
                     let b = if heavy >= 5 { bound.min(2) } else { bound };
                     cases.push((json!({"n": n, "calls": calls, "loader": loader, "notifier": notifier, "preload": preload, "seed": args.seed % 4}), wp, b));
+                    if !wp && (n <= 2 || thorough) {
+                        cases.push((json!({"n": n, "calls": calls, "loader": loader, "notifier": notifier, "preload": preload, "seed": args.seed % 4, "static": true}), wp, b.min(2)));
+                    }
                 }
             }
         }
